@@ -75,22 +75,44 @@ def coq_make(jobs=16, timeout=1800):
         return rc == 0, out
 
 
-def forbidden_tokens():
+def _scan_set(pid=None):
+    """Files that count for the forbidden-token grep: everything listed in
+    _CoqProject plus the property's own Properties file and the family
+    directories it imports (so a family that is still being integrated is
+    scanned by its own check, and nobody else's work in progress is)."""
+    files = set()
+    for line in open(os.path.join(COQ, "_CoqProject")):
+        line = line.strip()
+        if line.endswith(".v"):
+            files.add(os.path.join(COQ, line))
+    if pid:
+        pf = os.path.join(THEORIES, "Properties", "%s.v" % pid)
+        if os.path.exists(pf):
+            files.add(pf)
+            for fam in set(re.findall(r"\b(\w+)\.\w+", " ".join(re.findall(r"From RV Require (?:Import|Export)([^\n]*)", open(pf).read())))):
+                d = os.path.join(THEORIES, fam)
+                if os.path.isdir(d):
+                    for f in os.listdir(d):
+                        if f.endswith(".v"):
+                            files.add(os.path.join(d, f))
+    return sorted(files)
+
+
+def forbidden_tokens(pid=None):
     """grep the development for anything that declares an axiom or disables a check."""
     hits = []
-    for d, _, fs in os.walk(THEORIES):
-        for f in fs:
-            if not f.endswith(".v"):
-                continue
-            p = os.path.join(d, f)
-            txt = open(p).read()
-            # strip comments (nested comments are rare; handle one level repeatedly)
-            prev = None
-            while prev != txt:
-                prev = txt
-                txt = re.sub(r"\(\*[^*(]*(?:\*(?!\))[^*(]*|\((?!\*)[^*(]*)*\*\)", " ", txt)
-            for m in FORBIDDEN.finditer(txt):
-                hits.append("%s: %s" % (os.path.relpath(p, ROOT), m.group(0)))
+    for p in _scan_set(pid):
+        if not os.path.exists(p):
+            hits.append("%s: listed in _CoqProject but missing" % os.path.relpath(p, ROOT))
+            continue
+        txt = open(p).read()
+        # strip comments (innermost first, repeatedly)
+        prev = None
+        while prev != txt:
+            prev = txt
+            txt = re.sub(r"\(\*(?:(?!\(\*|\*\)).)*\*\)", " ", txt, flags=re.S)
+        for m in FORBIDDEN.finditer(txt):
+            hits.append("%s: %s" % (os.path.relpath(p, ROOT), m.group(0)))
     return hits
 
 
@@ -151,7 +173,7 @@ class Ctx:
         """make the development, re-check Properties/<pid>.v and its axioms."""
         ok, log = coq_make()
         self.obligation("make:coq", ok, log[-2000:] if not ok else "")
-        hits = forbidden_tokens()
+        hits = forbidden_tokens(self.pid)
         self.obligation("grep:no-axiom-no-admit", not hits, "; ".join(hits))
         pf = os.path.join(THEORIES, "Properties", "%s.v" % self.pid)
         src = open(pf).read()
